@@ -21,7 +21,7 @@ ASSUMPTIONS = ['finite differences: step 1e-3 (beta) / 1e-4 (strain) with Richar
                'elastic dipole convention P = -dE/d(strain): energies couple as E -> E - P:eps, jump vectors as dx -> (1+eps) dx',
                'independent space group from vmon.ref.geom.full_group (tolerance 1e-6)']
 REQUIRED_OBS = {'eval:C11:Db=-dD/dbeta(R1)': 20, 'eval:C11:elasto=dD/deps(R1)': 20, 'eval:C11:siteDipoles': 20,
-                'eval:C11:jumpDipoles': 20, 'with_vector_basis': 3, 'pinv_branch': 2}
+                'eval:C11:jumpDipoles': 20, 'with_vector_basis': 3, 'pinv_branch': 1}
 PER_CASE = 4
 
 
